@@ -6,7 +6,7 @@
    [src_of (scan_all r)] is what a decoder sees through pktline.Scanner. *)
 From Coq Require Import List NArith ZArith Bool.
 From GoGit Require Import Base.Out Model.PktLine Model.Packp
-  Proofs.C34Pkt Proofs.C35Base Proofs.C35Msgs Proofs.C35Caps Proofs.C35Adv.
+  Proofs.C34Pkt Proofs.C35Base Proofs.C35Msgs Proofs.C35Caps Proofs.C35Adv Proofs.C35Upd Proofs.C35Ul.
 Import ListNotations.
 
 (* capability.List: DecodeList (l.String()) = l for lists with distinct,
@@ -109,6 +109,16 @@ Proof.
 Qed.
 Print Assumptions C35_advrefs_first_peeled.
 
+(* UpdateRequests: capabilities, shallows, commands (create / update / delete)
+   with names of graphic non-blank ASCII and valid ids, not both zero *)
+Theorem C35_updreq_roundtrip : forall m ps s r, ur_ok m = true ->
+  ur_encode m = Some ps -> enc_pkts ps = Some s -> concat r = s ->
+  ur_decode (src_of (scan_all r)) = URok m.
+Proof.
+  intros m ps s r H Hu He Hr. rewrite (src_enc ps s r He (ur_no_errline m ps H Hu) Hr). now apply ur_roundtrip.
+Qed.
+Print Assumptions C35_updreq_roundtrip.
+
 (* UploadRequest — FULL STATEMENT: forall well-formed requests, decode (encode m) = m.
    False of the code (known finding): a request with a filter cannot be decoded *)
 Theorem C35_ulreq_filter_refuted : exists m ps,
@@ -119,6 +129,19 @@ Proof.
   eexists. split; [reflexivity|]. vm_compute. split; reflexivity.
 Qed.
 Print Assumptions C35_ulreq_filter_refuted.
+
+(* ... PARTIAL: without a filter (guard ul_ok: Filter empty) every request
+   round-trips: capabilities, wants and shallows (sorted, de-duplicated), and
+   every depth form (deepen n / deepen-since t / deepen-not refs) *)
+Theorem C35_ulreq_roundtrip_partial : forall m, ul_ok m = true ->
+  exists ps, ul_encode m = ULok ps /\
+    forall s r, enc_pkts ps = Some s -> concat r = s ->
+      ul_decode (src_of (scan_all r)) = inl (ul_canon m).
+Proof.
+  intros m H. destruct (ul_roundtrip m H) as (ps & He & Hn & Hd). exists ps. split; [assumption|].
+  intros s r Hs Hr. now rewrite (src_enc ps s r Hs Hn Hr).
+Qed.
+Print Assumptions C35_ulreq_roundtrip_partial.
 
 (* ---------- non-vacuity ---------- *)
 From Coq Require Import String.
@@ -140,6 +163,13 @@ Example C35_ex_first_peeled :
   | Some ps => adv_decode (mksrc (map item_of ps) None) = inl a /\ List.length ps = 3%nat
   | None => False
   end.
+Proof. vm_compute. repeat split. Qed.
+
+Example C35_ex_requests :
+  ur_ok (mkupdreq [(B "report-status", [])] [(B "refs/heads/main", zero_hash, h1); (B "refs/tags/v1", h1, h2)] [h2]) = true /\
+  ul_ok (mkulreq [(B "ofs-delta", [])] [h2; h1; h2] [h1] 0 (Some 1700000000%Z) [B "refs/heads/old"] []) = true /\
+  ul_ok (mkulreq [] [h1] [] 3 None [] []) = true /\
+  ul_wants (ul_canon (mkulreq [] [h2; h1; h2] [] 0 None [] [])) = [h1; h2].
 Proof. vm_compute. repeat split. Qed.
 
 Example C35_ex_srvresp :
